@@ -26,15 +26,29 @@
        C06_some_term_iff); hence with C05 (success, linkage, consistency, length, meaning; proved cover model, no cover hypothesis)
        C06_xxz_total, C06_xxz1_total, C06_bose_total, C06_fermi_total: the constructor's graph exists, is linked, cannot fail
        is_consistent, has length L and denotes the textbook formula -- no "returns Ok" hypothesis;
+     - (d), added: THE JORDAN-WIGNER LINK FOR EVERY L (section (d) at the end; Proofs/HamJWDefs.v, HamJW1-6.v).  The second-quantised
+       Fermi-Hubbard formula  -t sum_{i,s} (a+_{i,s} a_{i+1,s} + h.c.) + U sum_i (n_up - 1/2)(n_dn - 1/2) - mu sum_i (n_up + n_dn)  is written
+       literally with Jordan-Wigner mode operators a_k = I^k A Z^(2L-1-k) on 2L modes (products = sitewise products with the signs of the
+       2x2 table [omul] of C07); for every L the textbook word sum of the constructor's graph, with every site letter replaced by its
+       expansion into pairs of mode letters, equals it on every mode word (C06_fermi_hubbard_jw_all_L, C06_fermi_hubbard_graph_jw; padding
+       lemma C06_jw_padding, normal forms C06_jw_hopping_words / C06_jw_number_words for every L); the letter table is exact entry by entry
+       over any ring with half + half = 1 (C06_fermi_letter_entries), substitution preserves matrix elements for any number of sites
+       (C06_fermi_expand_sem), hence every matrix element of the MPO equals that of the second-quantised formula between occupation-number
+       states (C06_fermi_hubbard_dense_jw, hypotheses of C06_spec_mpo); linear fermionic: graph = sum_i coeff_i JW(a+_i | a_i) with the same
+       words (C06_linferm_jw); bosons: b+ b = n, [b, b+] = 1 below the top level, 2 (n(n-1)/2) = n(n-1) from sq k * sq k = k alone
+       (C06_bose_opmap_relations).
    NOT PROVED (validated on every generated case by the correspondence check: identical graphs evaluated
-   in Coq): the Jordan-Wigner padding lemma for general L (only the two-site
-   products are kernel-checked); entries sqrt 2 / sqrt k of the spin-1 / boson maps are abstract elements (positions and adjoints
-   checked with the roots replaced by 1; for spin 1 the adjoint identity is proved for any self-conjugate sq2). *)
+   in Coq): [superseded by (d): the Jordan-Wigner padding lemma for general L is now proved]; that word products compose as matrix
+   products is used through the checked 2x2 table [omul] (mixed-product property of the Kronecker product not restated); entries
+   sqrt 2 / sqrt k of the spin-1 / boson maps are abstract elements (positions and adjoints checked with the roots replaced by 1; for
+   spin 1 the adjoint identity is proved for any self-conjugate sq2; for bosons the algebraic relations are proved from sq k * sq k = k). *)
 From Coq Require Import ZArith QArith Qcanon List Bool Lia Permutation.
 From PT Require Import Base.Scalar Base.BigSum Base.Mx Model.OpGraph Model.C17Common Model.AutOp Model.HamIsing Proofs.HamIsingDen.
 From PT Require Import Model.Tensor Model.FromOpchains Model.GraphMPO Model.Hamiltonians Model.HamFormulas
                        Proofs.DenRev_C05 Proofs.PampDen_C05 Proofs.GraphMPOSem Proofs.C05Final
                        Proofs.HamShift Proofs.HamFinite Proofs.HamHerm Proofs.HamLinFerm Proofs.HamTotal.
+From PT Require Import Model.Molecular Model.MolFormula Proofs.HamJWDefs Proofs.HamJW1 Proofs.HamJW2 Proofs.HamJW3 Proofs.HamJW4 Proofs.HamJW5
+                       Proofs.HamJW6.
 Import ListNotations.
 Open Scope Z_scope.
 Notation OkG := FromOpchains.Ok.
@@ -300,3 +314,144 @@ Example C06_ising_dims_bounded :
                     | Some g => match bond_dims g with Some ws => nat_list_eqb ws ([1%nat] ++ repeat 3%nat (L - 1) ++ [1%nat]) | None => false end
                     | None => false end) [1; 2; 3; 4; 5; 6; 7; 8]%nat = true.
 Proof. vm_compute. reflexivity. Qed.
+
+(* ================================================================================================================
+   (d) THE JORDAN-WIGNER LINK FOR EVERY L  (Proofs/HamJWDefs.v, HamJW1.v .. HamJW6.v)
+   The formula side is written literally in second quantisation (Proofs/HamJWDefs.v): formal sums [pol] of words of
+   single-mode letters (I, C = a+, A = a, N, Z, M of Model/MolFormula.v), product [pmul] = bilinear extension of the sitewise
+   word product [wmul] with the signs of the 2x2 multiplication table [omul] (C07_omul_table; re-checked below against the
+   matrices used here), a_k = I^k A Z^(n-1-k), a+_k = I^k C Z^(n-1-k) (Z string to the right, as harness/hamref.py [modes]),
+   2 L modes ordered (0 up, 0 dn, 1 up, 1 dn, ...), mode of (site i, spin s) = md i s = 2 i + s:
+     fh_jw half t U mu L = -t sum_{i<L-1} sum_s (a+_{i,s} a_{i+1,s} + a+_{i+1,s} a_{i,s})
+                           + U sum_i (n_{i,up} - half)(n_{i,dn} - half) - mu sum_i (n_{i,up} + n_{i,dn}),   n_k = a+_k a_k.
+   Site letters (OID 0..10 of fermi_hubbard_mpo) <-> pairs (up letter, down letter): table [fh_etab]; only Nt = (N,I) + (I,N)
+   and NI = (N,N) - half (N,I) - half (I,N) + half^2 (I,I) are composite.  [fh_expand half f] substitutes, multilinearly,
+   every site letter of a coefficient function f on site words by its expansion and returns a coefficient function on mode words.
+   ================================================================================================================ *)
+(* the padding lemma, every length of the identity prefix and of the Z string: the product is decided inside the window *)
+Theorem C06_jw_padding : forall a b l1 l2, length l1 = length l2 ->
+  wmul (repeat OI a ++ l1 ++ repeat OZ b) (repeat OI a ++ l2 ++ repeat OZ b) =
+  match wmul l1 l2 with Some (s, u) => Some (s, repeat OI a ++ u ++ repeat OI b) | None => None end.
+Proof. exact wmul_IZ. Qed.
+Print Assumptions C06_jw_padding.
+(* normal forms for EVERY L: the hopping products a+_{i,s} a_{i+1,s}, a+_{i+1,s} a_{i,s} are, with sign +, the words
+   I..I (C,Z)(A,I) I..I = CZ AI,  (A,Z)(C,I) = AZ CI,  (I,C)(Z,A) = IC ZA,  (I,A)(Z,C) = IA ZC  at sites i, i+1;
+   n_{i,up} = (N,I), n_{i,dn} = (I,N) at site i *)
+Theorem C06_jw_hopping_words : forall L i, (S i < L)%nat ->
+  wmul (cre (2 * L) (md i 0)) (ann (2 * L) (md (S i) 0)) = Some (false, mw (2 * i) [OC; OZ; OA; OI] (2 * (L - 2 - i))) /\
+  wmul (cre (2 * L) (md (S i) 0)) (ann (2 * L) (md i 0)) = Some (false, mw (2 * i) [OA; OZ; OC; OI] (2 * (L - 2 - i))) /\
+  wmul (cre (2 * L) (md i 1)) (ann (2 * L) (md (S i) 1)) = Some (false, mw (2 * i) [OI; OC; OZ; OA] (2 * (L - 2 - i))) /\
+  wmul (cre (2 * L) (md (S i) 1)) (ann (2 * L) (md i 1)) = Some (false, mw (2 * i) [OI; OA; OZ; OC] (2 * (L - 2 - i))).
+Proof. intros L i H. exact (conj (hop_up_nf L i H) (conj (hop_up_rev_nf L i H) (conj (hop_dn_nf L i H) (hop_dn_rev_nf L i H)))). Qed.
+Print Assumptions C06_jw_hopping_words.
+Theorem C06_jw_number_words : forall L i, (i < L)%nat ->
+  wmul (cre (2 * L) (md i 0)) (ann (2 * L) (md i 0)) = Some (false, mw (2 * i) [ON; OI] (2 * (L - 1 - i))) /\
+  wmul (cre (2 * L) (md i 1)) (ann (2 * L) (md i 1)) = Some (false, mw (2 * i) [OI; ON] (2 * (L - 1 - i))).
+Proof. intros L i H. exact (conj (num_up_nf L i H) (num_dn_nf L i H)). Qed.
+Print Assumptions C06_jw_number_words.
+
+(* THE LINK, every L (also L = 0, 1), every ring, every value of [half], t, U, mu, every mode word v (any length):
+   the textbook word sum of the constructor's graph, read through the letter table, is the second-quantised formula *)
+Theorem C06_fermi_hubbard_jw_all_L : forall (R : cring) (half t U mu : R) L v,
+  fh_expand half (fermi_formula t U mu L) v = pcoef (fh_jw half t U mu L) v.
+Proof. exact fermi_jw_all_L. Qed.
+Print Assumptions C06_fermi_hubbard_jw_all_L.
+(* ... hence for the graph the constructor builds (which exists, C06_fermi_total) *)
+Theorem C06_fermi_hubbard_graph_jw : forall (R : cring) (half t U mu : R) L, (1 <= L)%nat -> some_term R (fermi_lop t U mu) L = true ->
+  exists g, spec_graph cover_model (fermi_spec half t U mu) L = OkG g /\ linked g = true /\
+    (forall fuel b, is_consistent_fuel fuel g = Some b -> b = true) /\ glength g = Some L /\
+    forall v, fh_expand half (den g) v = pcoef (fh_jw half t U mu L) v.
+Proof. exact fermi_graph_jw. Qed.
+Print Assumptions C06_fermi_hubbard_graph_jw.
+
+(* the letter table is exact: every entry of every 4x4 site operator of the operator map is the combination of products of
+   entries of the 2x2 mode matrices (any ring with half + half = 1; site state s = |n_up n_dn>, n_up = s / 2) *)
+Theorem C06_fermi_letter_entries : forall (R : cring) (half : R), kadd R half half = k1 R ->
+  forall o s t, In o fh_alpha -> (s < 4)%nat -> (t < 4)%nat ->
+  get (opmap_of (fermi_opmap half) o) s t =
+  suml all_ops (fun x => suml all_ops (fun y =>
+    kmul R (fh_e half o x y) (kmul R (get (opR x) (Nat.div s 2) (Nat.div t 2)) (get (opR y) (Nat.modulo s 2) (Nat.modulo t 2))))).
+Proof. exact fh_entry. Qed.
+Print Assumptions C06_fermi_letter_entries.
+(* the same as 4x4 matrix identities over Q[i] (half = 1/2), [omul] against the matrices [opR], [opR] = the matrices of C07 *)
+Theorem C06_fermi_letter_table :
+  fh_table_okb (R := QIring) qh = true /\
+  forallb (fun a => forallb (fun b => mxeqb (mulmx (opR a) (opR b)) (sopR (omul a b))) all_ops) all_ops = true /\
+  forallb (fun a => mxeqb (opR (R := Zring) a) (op_mx a)) all_ops = true.
+Proof. exact (conj fh_table_checked (conj omul_opR_table opR_op_mx)). Qed.
+Print Assumptions C06_fermi_letter_table.
+(* substituting letters preserves the operator, for ANY coefficient function f on site words and any number of sites:
+   sum_{site words} f(word) <s|word|t> = sum_{mode words} (fh_expand f)(v) <bits s|v|bits t> *)
+Theorem C06_fermi_expand_sem : forall (R : cring) (half : R), kadd R half half = k1 R ->
+  forall (s t : list nat) (f : list Z -> R), length s = length t ->
+  Forall (fun x => (x < 4)%nat) s -> Forall (fun x => (x < 4)%nat) t ->
+  suml (zwords fh_alpha (length s)) (fun word => kmul R (f word) (wprod (opmap_of (fermi_opmap half)) word s t)) =
+  suml (opwords (2 * length s)) (fun v => kmul R (fh_expand half f v) (mprod v (bits s) (bits t))).
+Proof. exact fh_expand_sem. Qed.
+Print Assumptions C06_fermi_expand_sem.
+(* DENSE MATRIX, every L >= 1: every matrix element of the MPO from_opgraph makes of the constructor's graph (hypotheses of
+   C06_spec_mpo) is the matrix element of the second-quantised Jordan-Wigner formula between the occupation-number states *)
+Theorem C06_fermi_hubbard_dense_jw : forall (R : cring) cover (half t U mu : R) L g o m ls,
+  kadd R half half = k1 R -> (1 <= L)%nat ->
+  spec_graph cover (fermi_spec half t U mu) L = OkG g -> linked g = true ->
+  from_opgraph (fermi_qd) g (opmap_of (fermi_opmap half)) = OkG (o, m) ->
+  graph_layers g = OkG ls -> last ls [] = [g_t1 g] ->
+  forall w w', length w = length (o_A o) -> length w' = length (o_A o) ->
+  Forall (fun s => (s < 4)%nat) w -> Forall (fun s => (s < 4)%nat) w' ->
+  opamp (o_A o) w w' =
+  suml (opwords (2 * length w)) (fun v => kmul R (pcoef (fh_jw half t U mu L) v) (mprod v (bits w) (bits w'))).
+Proof. exact fermi_dense_jw. Qed.
+Print Assumptions C06_fermi_hubbard_dense_jw.
+
+(* linear fermionic operators, every L: the graph denotes sum_i coeff_i . JW(a+_i | a_i) with the same Jordan-Wigner words
+   [jw n k o] = I^k o Z^(n-1-k), letters read through the ids of linear_fermionic_mpo (A = -1, I = 0, C = 1, Z = 2) *)
+Theorem C06_linferm_jw : forall (R : cring) (coeff : list R) (create : bool), (1 <= length coeff)%nat ->
+  forall w, den (linferm_graph coeff create) w = pcoef_ids lf_id (lf_jw coeff create) w.
+Proof. exact linferm_jw. Qed.
+Print Assumptions C06_linferm_jw.
+
+(* Bose-Hubbard operator map over ANY commutative ring: the only property of np.sqrt used is sq k * sq k = k (1 <= k < d);
+   then b+ b = n, [b, b+] = 1 below the top level and -(d-1) on it (truncation), and 2 (n(n-1)/2) = n (n - 1) *)
+Theorem C06_bose_opmap_relations : forall (R : cring) (d : nat) (sq : nat -> R),
+  (forall k, (1 <= k < d)%nat -> kmul R (sq k) (sq k) = rnat k) ->
+  mulmx (bo_bd R d sq) (bo_b R d sq) = bo_n R d sq /\
+  submx (mulmx (bo_b R d sq) (bo_bd R d sq)) (mulmx (bo_bd R d sq) (bo_b R d sq)) =
+    tab d d (fun i j => if Nat.eqb i j then (if Nat.ltb (S i) d then k1 R else kopp R (rnat i)) else k0 R) /\
+  addmx (bo_ni R d sq) (bo_ni R d sq) = mulmx (bo_n R d sq) (submx (bo_n R d sq) (idmx d)).
+Proof. exact bose_opmap_relations. Qed.
+Print Assumptions C06_bose_opmap_relations.
+
+(* ---------------- non-vacuity of (d) (vm_compute; both sides evaluated independently) ---------------- *)
+(* L = 2, ALL 1296 mode words, and selected words at L = 3, 4 (integers, half := 3: the word identity holds for every value) *)
+Example C06_nonvacuous_jw :
+  forallb (fun v => Z.eqb (fh_expand (R := Zring) 3 (fermi_formula (R := Zring) 2 5 7 2) v) (pcoef (fh_jw (R := Zring) 3 2 5 7 2) v)) (opwords 4) = true /\
+  pcoef (fh_jw (R := Zring) 3 2 5 7 2) [OC; OZ; OA; OI] = -2 /\ pcoef (fh_jw (R := Zring) 3 2 5 7 2) [OI; OA; OZ; OC] = -2 /\
+  pcoef (fh_jw (R := Zring) 3 2 5 7 2) [ON; ON; OI; OI] = 5 /\ pcoef (fh_jw (R := Zring) 3 2 5 7 2) [OI; OI; OI; ON] = -7 + 5 * -3 /\
+  pcoef (fh_jw (R := Zring) 3 2 5 7 2) [OI; OI; OI; OI] = 2 * (5 * 9) /\
+  forallb (fun v => Z.eqb (fh_expand (R := Zring) 3 (fermi_formula (R := Zring) 2 5 7 4) v) (pcoef (fh_jw (R := Zring) 3 2 5 7 4) v))
+          [[OI; OI; OI; OC; OZ; OA; OI; OI]; [OI; OI; OI; OI; OA; OZ; OC; OI]; [OI; OI; OI; OI; OI; OI; ON; ON]; [OI; OC; OZ; OZ; OZ; OA; OI; OI]] = true /\
+  pcoef (fh_jw (R := Zring) 3 2 5 7 4) [OI; OI; OI; OC; OZ; OA; OI; OI] = -2 /\
+  pcoef (fh_jw (R := Zring) 3 2 5 7 4) [OI; OC; OZ; OZ; OZ; OA; OI; OI] = 0.
+Proof. vm_compute. repeat split; reflexivity. Qed.
+(* the hypotheses of C06_fermi_hubbard_dense_jw are met (rationals, half = 1/2, t = 2, U = 3, mu = 5, L = 2) and the element
+   <up,0| H |0,up> = -t is reproduced by the mode-word sum *)
+Example C06_nonvacuous_dense_jw :
+  kadd Qcring hq hq = k1 Qcring /\
+  match spec_graph cover_model (@fermi_spec Qcring hq (zq 2) (zq 3) (zq 5)) 2 with
+  | OkG g => linked g = true /\
+      match from_opgraph fermi_qd g (opmap_of (@fermi_opmap Qcring hq)), graph_layers g with
+      | OkG (o, m), OkG ls => last ls [] = [g_t1 g] /\ length (o_A o) = 2%nat /\
+          keqb Qcring (opamp (o_A o) [2%nat; 0%nat] [0%nat; 2%nat]) (zq (-2)) = true /\
+          keqb Qcring (suml (opwords 4) (fun v => kmul Qcring (pcoef (fh_jw (R := Qcring) hq (zq 2) (zq 3) (zq 5) 2) v)
+                                                 (mprod v (bits [2%nat; 0%nat]) (bits [0%nat; 2%nat])))) (zq (-2)) = true
+      | _, _ => False
+      end
+  | _ => False
+  end.
+Proof. split; [apply Qc_is_canon; reflexivity|]. vm_compute. repeat split; reflexivity. Qed.
+Example C06_nonvacuous_linferm_bose :
+  pcoef_ids lf_id (lf_jw (R := Qcring) [zq 2; zq 0; zq 5] true) [0; 0; 1] = zq 5 /\
+  pcoef_ids lf_id (lf_jw (R := Qcring) [zq 2; zq 0; zq 5] true) [1; 2; 2] = zq 2 /\
+  (* the hypothesis sq k * sq k = k of C06_bose_opmap_relations is satisfiable: d = 2 over Z with sq 1 = 1 (for d >= 3 the ring must contain sqrt 2, ...) *)
+  (forall k, (1 <= k < 2)%nat -> kmul Zring ((fun _ => 1) k) ((fun _ => 1) k) = rnat (R := Zring) k).
+Proof. split; [|split]; try (vm_compute; reflexivity). intros k Hk. assert (k = 1%nat) by lia. subst. reflexivity. Qed.
